@@ -4,6 +4,7 @@ from __future__ import annotations
 import itertools
 import json
 import re
+from fractions import Fraction
 
 from .. import core
 from ..core import Broken, Ctx, Violation
@@ -15,13 +16,19 @@ DELIMS = {"tab": ("\t", "DTab"), "space": (" ", "DSpace"), "comma": (",", "DComm
 CH2D = {ch: coq for ch, coq in DELIMS.values()}
 
 TRUSTED = [
-    "translator/c20.py (Alignment members, the integer expressions of _set_relative_position, decorator + parameter "
-    "list of load_cropped_and_aligned_image, the separator tuple of load_image; fails closed on any other shape)",
-    "correspondence harness: harness/props/c20.py generators and text tokeniser, harness/drivers/c20.py",
+    "translator/c20.py (Alignment members; the integer expressions of _set_relative_position from an if/elif chain or "
+    "a match statement; decorator + parameter list of load_cropped_and_aligned_image; the separator tuple of load_image; "
+    "everything that could keep state between two calls in loader.py / image.py / the two loading models: caching "
+    "decorators, module-level containers mutated in functions, mutable defaults, function attributes; the call sites of "
+    "the two loading models; fails closed on any other shape)",
+    "correspondence harness: harness/props/c20.py generators and text tokeniser, harness/drivers/c20.py (independent "
+    "writers numpy.save / numpy.savetxt / astropy writeto / PIL / openpyxl; os.utime to give a rewritten file a chosen, "
+    "different modification time)",
     "modelled, not verified: np.intersect1d on ascending ranges = ordered intersection, numpy basic slicing and block "
-    "assignment, int(a / 2) = truncation toward zero (exact for |a| < 2^53), functools.lru_cache = LRU map keyed by the "
-    "argument list, np.loadtxt field splitting / blank stripping / float(); np.save, astropy.io.fits, pandas and "
-    "csv.Sniffer are exercised (round trips) but not modelled",
+    "assignment, int(a / 2) = truncation toward zero (exact for |a| < 2^53), np.loadtxt field splitting / blank stripping "
+    "/ float(); functools.lru_cache = LRU map keyed by the argument list (only used when the decorator is present: the "
+    "failing-input search and C20_memo_on_arguments_goes_stale); np.save/np.load, astropy.io.fits, PIL, pandas readers "
+    "and csv.Sniffer are exercised (round trips, histories) but not modelled",
 ]
 
 # ------------------------------------------------------------------------------------------ emitters
@@ -39,11 +46,21 @@ def calign(a) -> str:
     return "None" if a is None else f"(Some {core.cstr(a)})"
 
 
+def eff_mult(c) -> int:
+    """The exact integer factor the entry point applies: time_step / time_scale * multiplier (1 for fit / lcai)."""
+    if "tm" in c:
+        step, tscale, mult = c["tm"]
+        f = Fraction(step) / Fraction(tscale) * Fraction(mult)
+        assert f.denominator == 1, c
+        return int(f)
+    return c.get("mult", 1)
+
+
 def emit_fit_case(c, o) -> str:
     return (f"{{| c_ay := {core.cz(c['ay'])}; c_ax := {core.cz(c['ax'])}; c_data := {cmat(c['data'])}; "
             f"c_oy := {core.cz(c['oy'])}; c_ox := {core.cz(c['ox'])}; "
             f"c_pos := ({core.cz(c['pos'][0])}, {core.cz(c['pos'][1])}); c_align := {calign(c['align'])}; "
-            f"c_allow := {core.cbool(c['allow'])}; c_mult := {core.cz(c.get('mult', 1))}; c_obs := {cobs(o)} |}}")
+            f"c_allow := {core.cbool(c['allow'])}; c_mult := {core.cz(eff_mult(c))}; c_obs := {cobs(o)} |}}")
 
 
 HEAD = ("From Coq Require Import ZArith List String.\n"
@@ -61,6 +78,8 @@ def emit_fit_file(pairs) -> str:
 def emit_event(ev) -> str:
     if "w" in ev:
         return f"Write {core.cstr(ev['w'])} ({core.cz(ev['ay'])}, {core.cz(ev['ax'])}, {cmat(ev['data'])})"
+    if "r" in ev:
+        return f"LoadRaw {core.cstr(ev['r'])}"
     q = ev["l"]
     return (f"Load {{| q_shape := ({core.cz(q['shape'][0])}, {core.cz(q['shape'][1])}); q_file := {core.cstr(q['file'])}; "
             f"q_px := {core.cz(q['px'])}; q_py := {core.cz(q['py'])}; q_align := {calign(q['align'])}; "
@@ -107,12 +126,19 @@ def emit_text_file(pairs) -> str:
 
 
 def emit_rt_file(pairs) -> str:
-    body = ";\n  ".join(f"{{| r_table := {cmat(c['table'])}; r_obs := {cobs(o)} |}}" for c, o in pairs)
+    body = ";\n  ".join(f"{{| r_table := {cmat(rt_table_of(c))}; r_obs := {cobs(rt_obs_of(c, o))} |}}" for c, o in pairs)
     return (HEAD + f"Definition cases : list roundtrip_case := [\n  {body}\n].\n"
             "Eval vm_compute in roundtrip_violations cases.\n")
 
 
 # ------------------------------------------------------------------------------------------ generators
+
+LOADER_PATHS = ("lcai", "lcai_pos", "photon", "charge")
+PIPE_PATHS = ("pipe_photon", "pipe_charge")
+# (time_step, time_scale, multiplier) triples of the loading models whose factor step / scale * mult is an integer
+TMS = [(1, 1, 1), (1, 1, 2), (1, 0.5, 1), (2, 1, 1), (2, 2, 1), (4, 2, 2), (2, 0.5, 1), (1, 0.25, 4), (4, 1, 1), (4, 4, 2)]
+# size relations along one axis: (input, detector) — smaller / equal / larger, odd and even differences
+REL = [(1, 4), (2, 5), (4, 1), (5, 2), (3, 3), (2, 4), (4, 2), (1, 2), (2, 1), (7, 2), (2, 7)]
 
 
 def mk_data(r, ay, ax, positive=False):
@@ -121,9 +147,37 @@ def mk_data(r, ay, ax, positive=False):
     return [[sgn * (base + i * ax + j) for j in range(ax)] for i in range(ay)]
 
 
+def dress(r, c):
+    """Entry-point specific fields: value scale / dtype, file format, time factors, str or Path."""
+    path = c["path"]
+    c["scale"] = r.choice([1, 1, 4])
+    if c["scale"] == 1 and r.random() < 0.3:
+        neg = any(v < 0 for row in c["data"] for v in row)
+        c["dtype"] = r.choice(["int64", "float32", "int32"] if neg else ["int64", "float32", "uint16", "uint8", "int32"])
+    if path == "fit":
+        return c
+    c["ext"] = r.choice([".npy", ".npy", ".fits", ".txt", ".data"])
+    if (c["scale"] == 1 and c.get("dtype") in (None, "uint8") and r.random() < 0.25
+            and all(0 <= v <= 255 for row in c["data"] for v in row)):
+        c["ext"] = r.choice([".png", ".bmp", ".tiff", ".tif"])        # 8-bit grey-level pictures through PIL
+    c["as_path"] = r.random() < 0.3
+    if path in ("lcai", "lcai_pos"):
+        return c
+    c["allow"] = True
+    step, tscale, mult = r.choice(TMS)
+    if "charge" in path:
+        step, tscale, mult = (step, tscale, 1)
+        if Fraction(step) / Fraction(tscale) != int(Fraction(step) / Fraction(tscale)):
+            step, tscale = 2, 1
+    c["tm"] = [step, tscale, mult]
+    return c
+
+
 def fit_case(r, path="fit", malformed=False):
-    ay, ax = r.randint(1, 6), r.randint(1, 6)
-    oy, ox = r.randint(1, 6), r.randint(1, 6)
+    big = r.random() < 0.08
+    hi = 11 if big else 6
+    ay, ax = r.randint(1, hi), r.randint(1, hi)
+    oy, ox = r.randint(1, hi), r.randint(1, hi)
     if path == "fit" and r.random() < 0.04:
         if r.random() < 0.5:
             ay = 0
@@ -142,34 +196,81 @@ def fit_case(r, path="fit", malformed=False):
     if r.random() < 0.4:
         align = r.choice(ALIGNS)
     if malformed:
-        align = r.choice(["", "middle", "Center", "top-left", "bottomleft"])
-    allow = True if path in ("photon", "charge") else (r.random() < 0.75)
-    mult = r.choice([1, 2, 4]) if path in ("photon", "charge") else 1
-    return dict(kind="fit", path=path, ay=ay, ax=ax, data=mk_data(r, ay, ax, positive=path != "fit"),
-                oy=oy, ox=ox, pos=[py, px], align=align, allow=allow, mult=mult)
+        align = r.choice(["", "middle", "Center", "top-left", "bottomleft", "centre", "top_left ", "TOP_RIGHT"])
+    allow = r.random() < 0.75
+    c = dict(kind="fit", path=path, ay=ay, ax=ax, data=mk_data(r, ay, ax, positive=path not in ("fit", "lcai", "lcai_pos")),
+             oy=oy, ox=ox, pos=[py, px], align=align, allow=allow, mult=1)
+    return dress(r, c) if ay and ax else c
+
+
+def grid_case(r, path, al, rel_y, rel_x, allow=True):
+    (ay, oy), (ax, ox) = rel_y, rel_x
+    c = dict(kind="fit", path=path, ay=ay, ax=ax, data=mk_data(r, ay, ax, positive=path != "fit"), oy=oy, ox=ox,
+             pos=[r.randint(-3, 3), r.randint(-3, 3)], align=al, allow=allow, mult=1)
+    return dress(r, c)
 
 
 def gen_fit_cases(ctx: Ctx):
     r = ctx.rng("fit")
     cases = []
-    # every keyword x every size relation (smaller / equal / larger, odd and even differences), both settings
+    # every keyword x every size relation per axis (smaller / equal / larger, odd and even differences, one axis only)
     for al in ALIGNS:
-        for (ay, oy) in [(1, 4), (2, 5), (4, 1), (5, 2), (3, 3), (2, 4), (4, 2)]:
-            for (ax, ox) in [(1, 4), (5, 2), (3, 3), (2, 5), (4, 2)]:
-                cases.append(dict(kind="fit", path="fit", ay=ay, ax=ax, data=mk_data(r, ay, ax), oy=oy, ox=ox,
-                                  pos=[r.randint(-3, 3), r.randint(-3, 3)], align=al, allow=True, mult=1))
-    for _ in range(ctx.budget(1400, 6000)):
+        for ry in REL[:7]:
+            for rx in REL[:7]:
+                cases.append(grid_case(r, "fit", al, ry, rx))
+    for _ in range(ctx.budget(1300, 6000)):
         cases.append(fit_case(r, "fit"))
     for _ in range(ctx.budget(60, 300)):
         cases.append(fit_case(r, "fit", malformed=True))
-    for path, n in (("lcai", ctx.budget(150, 600)), ("photon", ctx.budget(120, 500)), ("charge", ctx.budget(120, 500))):
-        for al in ALIGNS:
-            c = fit_case(r, path)
-            c["align"] = al
-            cases.append(c)
+    for path, n in (("lcai", ctx.budget(130, 600)), ("lcai_pos", ctx.budget(40, 200)), ("photon", ctx.budget(110, 500)),
+                    ("charge", ctx.budget(110, 500)), ("pipe_photon", ctx.budget(10, 60)), ("pipe_charge", ctx.budget(10, 60))):
+        # the keyword grid through every entry point: each keyword with odd and even differences in both directions
+        grid = [(al, ry, rx) for al in ALIGNS for ry in REL for rx in REL]
+        r.shuffle(grid)
+        per_kw = {al: 0 for al in ALIGNS}
+        want = ctx.budget(8, 30) if path not in PIPE_PATHS else 1
+        for al, ry, rx in grid:
+            if per_kw[al] < want:
+                per_kw[al] += 1
+                cases.append(grid_case(r, path, al, ry, rx))
         for _ in range(n):
             cases.append(fit_case(r, path))
+        if path in ("lcai", "photon"):
+            for _ in range(ctx.budget(6, 30)):
+                cases.append(fit_case(r, path, malformed=True))
     return cases
+
+
+def gen_step_cases(ctx: Ctx):
+    """One Exposure run with several readouts: the loading model is run once per readout with that readout's time_step."""
+    r = ctx.rng("steps")
+    cases = []
+    for _ in range(ctx.budget(8, 40)):
+        c = fit_case(r, r.choice(PIPE_PATHS))
+        c.pop("tm", None)
+        c.update(kind="steps", allow=True, tscale=r.choice([1, 0.5, 0.25]), mult=r.choice([1, 2]) if c["path"] == "pipe_photon" else 1,
+                 times=r.choice([[1, 3, 7], [2, 4], [1, 2, 4, 8], [4, 5]]))
+        cases.append(c)
+    return cases
+
+
+def step_factors(c):
+    ts, prev = [], 0
+    for t in c["times"]:
+        ts.append(t - prev)
+        prev = t
+    return [int(Fraction(st) / Fraction(c["tscale"]) * c["mult"]) for st in ts]
+
+
+def expand_steps(pairs):
+    """A `steps` case is judged as one placement case per readout (factor = that readout's time_step / time_scale)."""
+    out = []
+    for c, o in pairs:
+        for k, f in enumerate(step_factors(c)):
+            ck = dict(c, mult=f, step_index=k)
+            ck.pop("tm", None)
+            out.append((ck, o["steps"][k] if k < len(o.get("steps", [])) else {"raise": "missing"}, (c, o)))
+    return out
 
 
 def exhaustive_fit_cases(n=4, off=5):
@@ -188,9 +289,56 @@ def exhaustive_fit_cases(n=4, off=5):
     return cases
 
 
-def mk_write(r, name, ay=None, ax=None):
+def exhaustive_align_cases(n=7):
+    """Every keyword x all input / detector sizes <= n per axis (every odd / even difference in both directions),
+    through fit_into_array; the other axis takes a size from the same sweep so both axes are exercised."""
+    cases = []
+    for al in ALIGNS:
+        for ay, oy in itertools.product(range(1, n + 1), repeat=2):
+            ax, ox = oy, ay            # the mirrored relation on the other axis
+            data = [[1 + i * ax + j for j in range(ax)] for i in range(ay)]
+            cases.append(dict(kind="fit", path="fit", ay=ay, ax=ax, data=data, oy=oy, ox=ox, pos=[0, 0], align=al,
+                              allow=True, mult=1))
+    return cases
+
+
+# ---- histories
+
+RAW_VIAS = ("image", "table", "psf")
+EXTS = (".npy", ".fits", ".txt", ".data")
+# modification-time offsets (ms) of a rewrite relative to the previous version of the file: within the same second,
+# the next second, far later, and an OLDER time stamp (a file replaced by a copy that keeps its old date)
+DTS = (1, 400, 1500, 90000, -5000)
+
+
+def W(name, data, dt=None):
+    return dict(w=name, ay=len(data), ax=len(data[0]) if data else 0, data=data, dt=dt)
+
+
+def L(name, shape, py=0, px=0, align=None, allow=True, as_path=False):
+    q = dict(shape=list(shape), file=name, px=px, py=py, align=align, allow=allow)
+    if as_path:
+        q["as_path"] = True
+    return dict(l=q)
+
+
+def R(name, via, as_path=False):
+    ev = dict(r=name, via=via)
+    if as_path:
+        ev["as_path"] = True
+    return ev
+
+
+def raw_ok(name, via):
+    ext = name[name.rfind("."):]
+    if via == "table":
+        return ext in (".npy", ".txt", ".data", ".csv")
+    return ext in EXTS
+
+
+def mk_write(r, name, ay=None, ax=None, dt=None):
     ay, ax = ay or r.randint(1, 3), ax or r.randint(1, 3)
-    return dict(w=name, ay=ay, ax=ax, data=mk_data(r, ay, ax, positive=True))
+    return dict(w=name, ay=ay, ax=ax, data=mk_data(r, ay, ax, positive=True), dt=dt)
 
 
 def mk_load(r, name, shape=None):
@@ -198,48 +346,121 @@ def mk_load(r, name, shape=None):
                        py=r.randint(-1, 1), align=r.choice([None, None, "center", "bottom_left"]), allow=True))
 
 
+def targeted_memo_cases(ctx: Ctx):
+    """Minimal histories: a file is rewritten between two loads — same size in bytes or not, within the same second or
+    later or with an older time stamp, through every entry point and file format; the second load repeats the first
+    request or is a new one."""
+    r = ctx.rng("memo-targeted")
+    cases = []
+    a1, a2 = [[1, 2], [3, 4]], [[8, 7], [6, 5]]
+    b3 = [[9, 9, 9]]
+    k = 0
+    for via in LOADER_PATHS + ("pipe_photon",):
+        exts = EXTS if via != "pipe_photon" else (".npy",)
+        for ext in exts:
+            f = "f" + ext
+            for dt in DTS if via != "pipe_photon" else (400,):
+                k += 1
+                if not ctx.quick or via == "lcai" or (k % 3 == ctx.seed % 3):
+                    ap = (k % 4 == 0)
+                    cases.append(dict(kind="memo", via=via, events=[W(f, a1, 0), L(f, (2, 2), as_path=ap), W(f, a2, dt), L(f, (2, 2), as_path=ap)]))
+            # the load after the rewrite is a NEW request (other detector shape / offset)
+            cases.append(dict(kind="memo", via=via, events=[W(f, a1, 0), L(f, (2, 2)), W(f, a2, 400), L(f, (2, 3), px=1)]))
+            # the size in bytes changes
+            cases.append(dict(kind="memo", via=via, events=[W(f, a1, 0), L(f, (2, 2)), W(f, b3, 1), L(f, (2, 2))]))
+        # nothing rewritten after the load: written twice before, loaded twice
+        cases.append(dict(kind="memo", via=via, events=[W("g.npy", a1, 0), W("g.npy", a2, 1), L("g.npy", (2, 2)), L("g.npy", (2, 2))]))
+    for via in RAW_VIAS:
+        for ext in EXTS:
+            f = "f" + ext
+            if not raw_ok(f, via):
+                continue
+            for dt in DTS:
+                k += 1
+                ap = (k % 3 == 0)
+                cases.append(dict(kind="memo", via="lcai", events=[W(f, a1, 0), R(f, via, ap), W(f, a2, dt), R(f, via, ap)]))
+            cases.append(dict(kind="memo", via="lcai", events=[W(f, a1, 0), R(f, via), W(f, b3, 1), R(f, via)]))
+            # written, read directly, rewritten, then placed on a detector (and the other way round)
+            cases.append(dict(kind="memo", via=r.choice(LOADER_PATHS), events=[W(f, a1, 0), R(f, via), W(f, a2, 400), L(f, (2, 2))]))
+            cases.append(dict(kind="memo", via=r.choice(LOADER_PATHS), events=[W(f, a1, 0), L(f, (2, 2)), W(f, a2, 400), R(f, via)]))
+    # two paths, one rewritten: the other must not change; more files than a small cache would hold
+    many = []
+    for i in range(20):
+        many += [W(f"m{i}.npy", [[i + 1]], 0), R(f"m{i}.npy", "image")]
+    many += [W("m0.npy", [[77]], 400), R("m0.npy", "image"), R("m19.npy", "image"), L("m0.npy", (1, 1))]
+    cases.append(dict(kind="memo", via="lcai", events=many))
+    one = lambda v: W("f.npy", [[v]])
+    ld = L("f.npy", (1, 1))
+    for via in ("lcai", "photon", "charge"):
+        cases.append(dict(kind="memo", via=via, events=[one(1), ld, one(2), ld]))      # natural time stamps
+    cases.append(dict(kind="memo", via="lcai", events=[ld, one(1), ld]))                # missing file first
+    cases.append(dict(kind="memo", via="lcai", events=[R("f.npy", "image"), one(1), R("f.npy", "image")]))
+    for c in cases:
+        c["scale"] = 1
+    return cases
+
+
 def gen_memo_cases(ctx: Ctx):
     r = ctx.rng("memo")
-    cases = []
-    one = lambda v: dict(w="f.npy", ay=1, ax=1, data=[[v]])
-    ld = dict(l=dict(shape=[1, 1], file="f.npy", px=0, py=0, align=None, allow=True))
-    # the minimal history named by the property: rewrite a file between two loads of one process
-    for via in ("lcai", "photon", "charge"):
-        cases.append(dict(kind="memo", via=via, events=[one(1), ld, one(2), ld]))
-        cases.append(dict(kind="memo", via=via, events=[one(1), one(2), ld, ld]))          # no rewrite after load
-    cases.append(dict(kind="memo", via="lcai", events=[ld, one(1), ld]))                    # missing file first
-    for _ in range(ctx.budget(60, 400)):
-        names = ["a.npy", "b.npy", "c.npy"][: r.randint(1, 3)]
-        ev, reqs = [], []
+    cases = targeted_memo_cases(ctx)
+    for _ in range(ctx.budget(70, 400)):
+        names = [r.choice(["a", "b", "c"]) + r.choice(EXTS) for _ in range(r.randint(1, 3))]
+        ev, reqs, clock = [], [], {}
+        stamped = r.random() < 0.7
+        via = r.choice(["lcai", "lcai", "lcai_pos", "photon", "charge"])
         for _ in range(r.randint(3, 9)):
             k = r.random()
             if k < 0.4:
-                ev.append(mk_write(r, r.choice(names)))
-            elif k < 0.7 and reqs:
-                ev.append(r.choice(reqs))                      # the same request again (cache hit)
+                n = r.choice(names)
+                dt = None
+                if stamped:
+                    step = r.choice(DTS)
+                    dt = clock.get(n, 0) + step
+                    while dt in [e.get("dt") for e in ev if e.get("w") == n]:       # never the same stamp twice
+                        dt += 1
+                    clock[n] = dt
+                same = [e for e in ev if e.get("w") == n]
+                if same and r.random() < 0.6:                                       # same shape = same size in bytes
+                    ev.append(mk_write(r, n, same[-1]["ay"], same[-1]["ax"], dt=dt))
+                else:
+                    ev.append(mk_write(r, n, dt=dt))
+            elif k < 0.6 and reqs:
+                ev.append(r.choice(reqs))                      # the same request again
+            elif k < 0.8:
+                n = r.choice(names)
+                vias = [v for v in RAW_VIAS if raw_ok(n, v)]
+                ev.append(R(n, r.choice(vias), as_path=r.random() < 0.3))
             else:
                 q = mk_load(r, r.choice(names))
                 reqs.append(q)
                 ev.append(q)
-        cases.append(dict(kind="memo", via=r.choice(["lcai", "lcai", "photon", "charge"]), events=ev))
+        if not any("l" in e or "r" in e for e in ev):
+            ev.append(mk_load(r, names[0]))
+        cases.append(dict(kind="memo", via=via, events=ev, scale=r.choice([1, 4])))
     if not ctx.quick:
-        # more distinct requests than the cache holds: the evicted entry is recomputed (fresh), the kept one is stale
-        ev = [dict(w="e.npy", ay=1, ax=1, data=[[5]])]
-        first = dict(l=dict(shape=[1, 1], file="e.npy", px=0, py=0, align=None, allow=True))
+        # more distinct requests than a 128-entry cache holds
+        ev = [W("e.npy", [[5]], 0)]
+        first = L("e.npy", (1, 1))
         ev.append(first)
         for k in range(1, 131):
-            ev.append(dict(l=dict(shape=[1, k + 1], file="e.npy", px=0, py=0, align=None, allow=True)))
-        ev.append(dict(w="e.npy", ay=1, ax=1, data=[[6]]))
+            ev.append(L("e.npy", (1, k + 1)))
+        ev.append(W("e.npy", [[6]], 400))
         ev.append(first)
-        ev.append(dict(l=dict(shape=[1, 131], file="e.npy", px=0, py=0, align=None, allow=True)))
-        cases.append(dict(kind="memo", via="lcai", events=ev))
+        ev.append(L("e.npy", (1, 131)))
+        cases.append(dict(kind="memo", via="lcai", events=ev, scale=1))
     return cases
+
+
+# ---- formats
+
+def rt_table(r, ny, nx, lo=-999, hi=999, specials=(0, 1, -1, 10 ** 6, 2 ** 24 + 1, 2 ** 31 + 1, -(2 ** 31) - 1, 2 ** 53 - 1)):
+    return [[r.randint(lo, hi) if r.random() < 0.8 else r.choice(specials) for _ in range(nx)] for _ in range(ny)]
 
 
 def gen_roundtrip_cases(ctx: Ctx):
     r = ctx.rng("rt")
     cases = []
-    shapes = [(1, 1), (1, 3), (3, 1), (2, 2), (3, 4), (5, 2)]
+    shapes = [(1, 1), (1, 3), (3, 1), (2, 2), (3, 4), (5, 2), (2, 7)]
     combos = [("npy", None, "image"), ("fits", None, "image"), ("npy", None, "table"), ("fitstable", None, "table")]
     for d in DELIMS:
         combos += [("txt", d, "image"), ("data", d, "image"), ("txt", d, "table"), ("data", d, "table"),
@@ -247,9 +468,58 @@ def gen_roundtrip_cases(ctx: Ctx):
     for fmt, d, loader in combos:
         for (ny, nx) in shapes:
             for _ in range(ctx.budget(1, 4)):
-                t = [[r.randint(-999, 999) if r.random() < 0.8 else r.choice([0, 1, -1, 10 ** 6])
-                      for _ in range(nx)] for _ in range(ny)]
-                cases.append(dict(kind="roundtrip", fmt=fmt, delim=d, loader=loader, table=t))
+                c = dict(kind="roundtrip", fmt=fmt, delim=d, loader=loader, table=rt_table(r, ny, nx))
+                c["as_path"] = r.random() < 0.3
+                c["upper"] = r.random() < 0.15
+                if fmt in ("txt", "data", "csv"):
+                    c["style"] = r.choice(["int", "int", "repr", "sci"])
+                    if c["style"] != "int":
+                        c["scale"] = r.choice([1, 4])
+                    c["header"] = loader == "table" and r.random() < 0.3
+                    c["crlf"] = r.random() < 0.1
+                else:
+                    c["scale"] = r.choice([1, 4]) if fmt != "fitstable" else 1
+                if c.get("scale", 1) == 4:          # quarters: keep value / 4 exactly representable
+                    c["table"] = rt_table(r, ny, nx, specials=(0, 1, -1, 10 ** 6, 2 ** 31 + 1, 2 ** 50 + 1))
+                if fmt == "fits":
+                    c["hdus"] = r.choice(["primary", "primary", "ext1", "two"])
+                if c.get("scale", 1) == 1 and fmt in ("npy", "fits") and r.random() < 0.5:
+                    dt = r.choice(["int64", "int32", "int16", "uint16", "uint8", "float32", ">f8", ">i4"])
+                    lo, hi = {"int64": (-2 ** 40, 2 ** 40), "int32": (-2 ** 31, 2 ** 31 - 1), "int16": (-2 ** 15, 2 ** 15 - 1),
+                              "uint16": (0, 2 ** 16 - 1), "uint8": (0, 255), "float32": (-2 ** 24, 2 ** 24),
+                              ">f8": (-2 ** 40, 2 ** 40), ">i4": (-2 ** 31, 2 ** 31 - 1)}[dt]
+                    c["dtype"] = dt
+                    c["table"] = rt_table(r, ny, nx, lo, hi, specials=(lo, hi, 0))
+                cases.append(c)
+    # 8-bit grey-level pictures through PIL (lossless formats): row 0 of the array is the first row of the picture
+    for fmt in ("png", "bmp", "tiff", "tif"):
+        for (ny, nx) in [(1, 1), (2, 3), (5, 2)][: ctx.budget(2, 3)]:
+            cases.append(dict(kind="roundtrip", fmt=fmt, delim=None, loader="image", table=rt_table(r, ny, nx, 0, 255, (0, 255)),
+                              upper=r.random() < 0.2))
+    for fmt in ("jpg", "jpeg"):            # lossy format: uniform grey pictures only (exact at quality 100)
+        v = r.randint(0, 255)
+        ny, nx = r.choice([(1, 1), (3, 5), (9, 17)])
+        cases.append(dict(kind="roundtrip", fmt=fmt, delim=None, loader="image", table=[[v] * nx for _ in range(ny)]))
+    for hdus in ("primary", "ext1", "two"):
+        for dt in (None, "int16", "uint16", "float32"):
+            lo, hi = {None: (-999, 999), "int16": (-2 ** 15, 2 ** 15 - 1), "uint16": (0, 2 ** 16 - 1), "float32": (-2 ** 24, 2 ** 24)}[dt]
+            c = dict(kind="roundtrip", fmt="fits", delim=None, loader="image", hdus=hdus, table=rt_table(r, 2, 3, lo, hi, (lo, hi, 0)))
+            if dt:
+                c["dtype"] = dt
+            cases.append(c)
+    for hdr in (False, True):
+        cases.append(dict(kind="roundtrip", fmt="xlsx", delim=None, loader="table", header=hdr, table=rt_table(r, 3, 2, -999, 999, (0,)),
+                          scale=4))
+    return cases
+
+
+def gen_cube_cases(ctx: Ctx):
+    r = ctx.rng("cube")
+    cases = []
+    for loader in ("datacube", "image"):
+        for (nz, ny, nx) in [(1, 1, 1), (2, 3, 2), (3, 1, 4)][: ctx.budget(2, 3)]:
+            cases.append(dict(kind="cube", loader=loader,
+                              cube=[[[r.randint(-99, 99) for _ in range(nx)] for _ in range(ny)] for _ in range(nz)]))
     return cases
 
 
@@ -279,24 +549,38 @@ def gen_text_cases(ctx: Ctx):
             rows.append(s)
         cases.append(dict(kind="text", text="\n".join(rows) + ("\n" if r.random() < 0.8 else ""),
                           ext=r.choice([".txt", ".data"])))
+    # regular texts: the same run of separator characters (a gap) between every two neighbours
+    for _ in range(ctx.budget(120, 600)):
+        ny, nx = r.randint(1, 3), r.randint(1, 4)
+        k = r.random()
+        if k < 0.5:
+            d = r.choice(seps)
+            gap = r.choice(["", " ", "\t", "  "][:3]) + d + r.choice(["", " ", "\t"])
+        else:
+            gap = "".join(r.choice(seps) for _ in range(r.randint(1, 3)))
+        rows = [gap.join(str(r.randint(-50, 50)) for _ in range(nx)) for _ in range(ny)]
+        if r.random() < 0.1:
+            rows[r.randrange(ny)] = r.choice([" ", "\t"]) + rows[0]            # leading blank on one line
+        cases.append(dict(kind="text", text="\n".join(rows) + "\n", ext=r.choice([".txt", ".data"])))
     return [c for c in cases if tokenise(c["text"]) is not None]
 
 
 # ------------------------------------------------------------------------------------------ evaluation
 
 
-def run_cases(ctx: Ctx, cases, tag):
+def run_cases(ctx: Ctx, cases, tag, note=True):
     obs = core.run_driver(ctx, "c20", cases, workers=8)
     pairs = []
     for c, o in zip(cases, obs):
         if "crash" in o or "driver_error" in o:
-            ctx.broken.append(Broken("correspondence", "implementation driver failed", str(o)[:600], c))
+            if note:
+                ctx.broken.append(Broken("correspondence", "implementation driver failed", str(o)[:600], c))
             continue
         pairs.append((c, o))
     return pairs
 
 
-def eval_files(ctx: Ctx, pairs, emit, per, tag, n_evals):
+def eval_files(ctx: Ctx, pairs, emit, per, tag, n_evals, note=True):
     files = {f"{tag}_{k // per:04d}": emit(pairs[k:k + per]) for k in range(0, len(pairs), per)}
     res = core.coq_eval_many(ctx, files, timeout=900, par=8)
     outs = [[] for _ in range(n_evals)]
@@ -304,7 +588,8 @@ def eval_files(ctx: Ctx, pairs, emit, per, tag, n_evals):
         ok, evals, se = res[name]
         chunk = pairs[k * per:(k + 1) * per]
         if not ok or len(evals) != n_evals:
-            ctx.broken.append(Broken("correspondence", f"case file {name}.v did not evaluate", core.tail(se, 15)))
+            if note:
+                ctx.broken.append(Broken("correspondence", f"case file {name}.v did not evaluate", core.tail(se, 15)))
             continue
         for j in range(n_evals):
             outs[j] += [chunk[i] for i in core.parse_int_list(evals[j])]
@@ -326,12 +611,17 @@ def py_spec_fit(c):
         return None
     if not (max(py, 0) < min(py + ay, oy) and max(px, 0) < min(px + ax, ox)):
         return None
-    m = c.get("mult", 1)
+    m = eff_mult(c)
     return [[m * c["data"][i - py][j - px] if 0 <= i - py < ay and 0 <= j - px < ax else 0 for j in range(ox)]
             for i in range(oy)]
 
 
-def fit_violation(c, o) -> Violation:
+def size_relation(c):
+    rel = lambda a, o: "smaller" if a < o else ("equal" if a == o else "larger")
+    return f"{rel(c['ay'], c['oy'])}/{rel(c['ax'], c['ox'])}"
+
+
+def fit_violation(c, o, whole=None) -> Violation:
     exp = py_spec_fit(c)
     if exp is None and "out" in o:
         kind = "accepts_input_that_must_be_refused"
@@ -341,41 +631,114 @@ def fit_violation(c, o) -> Violation:
         kind = "wrong_shape"
     else:
         kind = "wrong_pixels"
-    return Violation(clause="placement", case=c, observed=o, expected=exp if exp is not None else "ValueError",
-                     what=f"{c['path']}: input {c['ay']}x{c['ax']} on detector {c['oy']}x{c['ox']} at "
-                          f"{c['pos'] if not c['align'] else c['align']}: {kind}",
+    case, obs = whole if whole is not None else (c, o)
+    extra = f" (readout {c['step_index']} of times {c['times']})" if "step_index" in c else ""
+    return Violation(clause="placement", case=case, observed=obs, expected=exp if exp is not None else "ValueError",
+                     what=f"{c['path']}: input {c['ay']}x{c['ax']} ({c.get('ext', 'array')}, {c.get('dtype', 'float64')}) on "
+                          f"detector {c['oy']}x{c['ox']} at {c['pos'] if not c['align'] else c['align']}, factor "
+                          f"{eff_mult(c)}{extra}: {kind}",
                      sig=dict(clause="placement", path=c["path"], kind=kind, keyword=bool(c["align"])))
 
 
-def memo_cause(c):
-    loaded, content = set(), {}
+def memo_walk(c, o):
+    """Classify a freshness violation (already decided inside Coq): the first load whose result is not what the file
+    held at that moment; which entry point, whether the same request was made before, what the rewrite looked like."""
+    content, writes, seen_req, loaded = {}, {}, [], set()
+    res = list(o.get("results", []))
+    k = 0
+    info = dict(cause="other", entry=c.get("via"), repeat=False, rewrite="none")
     for ev in c["events"]:
         if "w" in ev:
-            new = (ev["ay"], ev["ax"], json.dumps(ev["data"]))
-            if ev["w"] in loaded and content.get(ev["w"]) != new:
-                return "rewritten_after_load"
-            content[ev["w"]] = new
+            writes.setdefault(ev["w"], []).append(ev)
+            content[ev["w"]] = ev
+            continue
+        if "r" in ev:
+            name, entry = ev["r"], ev["via"]
+            cur = content.get(name)
+            exp = None if cur is None else cur["data"]
+            req = ("r", name, entry)
         else:
-            loaded.add(ev["l"]["file"])
-    return "other"
+            q = ev["l"]
+            name, entry = q["file"], c.get("via")
+            cur = content.get(name)
+            exp = None if cur is None else py_spec_fit(dict(ay=cur["ay"], ax=cur["ax"], data=cur["data"], oy=q["shape"][0],
+                                                            ox=q["shape"][1], pos=[q["py"], q["px"]], align=q["align"],
+                                                            allow=q["allow"]))
+            req = ("l", json.dumps(q, sort_keys=True))
+        got = res[k].get("out") if k < len(res) else None
+        k += 1
+        if got != exp:
+            ws = writes.get(name, [])
+            stale = any(got is not None and got == (w["data"] if "r" in ev else py_spec_fit(dict(
+                ay=w["ay"], ax=w["ax"], data=w["data"], oy=ev["l"]["shape"][0], ox=ev["l"]["shape"][1],
+                pos=[ev["l"]["py"], ev["l"]["px"]], align=ev["l"]["align"], allow=ev["l"]["allow"]))) for w in ws[:-1])
+            info["entry"] = entry
+            info["repeat"] = req in seen_req
+            if stale and name in loaded:
+                info["cause"] = "rewritten_after_load"
+            elif stale:
+                info["cause"] = "earlier_version_never_loaded"
+            if len(ws) >= 2:
+                a, b = ws[-2], ws[-1]
+                same_size = (a["ay"], a["ax"]) == (b["ay"], b["ax"])
+                if a.get("dt") is None or b.get("dt") is None:
+                    when = "natural_mtime"
+                elif b["dt"] < a["dt"]:
+                    when = "older_mtime"
+                elif b["dt"] // 1000 == a["dt"] // 1000:
+                    when = "same_second"
+                else:
+                    when = "later_second"
+                info["rewrite"] = f"{'same_size' if same_size else 'other_size'}/{when}"
+            info["index"] = k - 1
+            return info
+        seen_req.append(req)
+        loaded.add(name)
+    return info
 
 
 def memo_violation(c, o) -> Violation:
-    cause = memo_cause(c)
+    info = memo_walk(c, o)
     return Violation(clause="fresh_content", case=c, observed=o, expected="every load returns the file's current content",
-                     what=f"history of {len(c['events'])} events via {c.get('via')}: a load returned an earlier version "
-                          f"of the file ({cause})",
-                     sig=dict(clause="fresh_content", cause=cause))
+                     what=f"history of {len(c['events'])} events: load #{info.get('index')} through {info['entry']} did not "
+                          f"return what the file held at that moment ({info['cause']}; "
+                          f"{'the same request was made before' if info['repeat'] else 'a request not made before'}; "
+                          f"rewrite: {info['rewrite']})",
+                     sig=dict(clause="fresh_content", cause=info["cause"], entry=info["entry"], repeat=info["repeat"]))
+
+
+def shrink_memo(ctx: Ctx, c, o, rounds=4):
+    """Greedy: drop one event at a time while the history still violates the specification (decided in Coq)."""
+    best = (c, o)
+    for _ in range(rounds):
+        ev = best[0]["events"]
+        if len(ev) <= 3:
+            break
+        cands = [dict(best[0], events=ev[:i] + ev[i + 1:]) for i in range(len(ev))]
+        cands = [x for x in cands if any("l" in e or "r" in e for e in x["events"])]
+        pairs = run_cases(ctx, cands, "shrink", note=False)
+        if not pairs:
+            break
+        got = eval_files(ctx, pairs, emit_memo_file, 40, "shrink_memo", 2, note=False)
+        viol = got[1] if got else []
+        if not viol:
+            break
+        best = min(viol, key=lambda co: len(co[0]["events"]))
+    return best
 
 
 def run(ctx: Ctx):
     from translator import c20 as tr
 
     ctx.trusted += TRUSTED
+    ctx.max_reported = 8          # placement / freshness / round-trip classes side by side
     ctx.assumptions += [
-        "2-D inputs; integer pixel values (exact in float64); shapes and offsets are Python ints",
-        "text files contain integers and the five separator characters only (numbers are atomic tokens)",
-        "one process, one thread; the files are local paths (fsspec cache option off, its default)",
+        "2-D inputs (3-D only through load_datacube / load_image round trips); pixel values are integers or quarters "
+        "(exact in float64, and in the narrower dtypes where those are used); shapes and offsets are Python ints",
+        "text files of the delimiter model contain integers and the five separator characters only (numbers are atomic "
+        "tokens); decimal / exponent notation is exercised by the round trips",
+        "one process, one thread; the files are local paths (fsspec cache option off, its default); a rewrite of a file "
+        "gets a modification time different from the previous version's (1 ms .. 90 s later, or 5 s earlier)",
     ]
     gen = {}
     try:
@@ -394,47 +757,68 @@ def run(ctx: Ctx):
 def explore(ctx: Ctx, deep: bool):
     # ---- placement
     if deep:
-        fit_cases = exhaustive_fit_cases(3, 4)
+        fit_cases = exhaustive_fit_cases(3, 4) + exhaustive_align_cases(9)
+        step_cases = []
     else:
-        fit_cases = gen_fit_cases(ctx)
+        fit_cases = corpus_cases("fit") + gen_fit_cases(ctx) + exhaustive_align_cases(7)
+        step_cases = gen_step_cases(ctx)
+        ctx.cov["exhaustive"] = "fit_into_array: 5 keywords x all input/detector sizes 1..7 per axis"
         if not ctx.quick:
             fit_cases += exhaustive_fit_cases(4, 5)
-            ctx.cov["exhaustive"] = "fit_into_array: all input/detector shapes <= 4x4 x offsets -5..5 + 5 keywords x allow"
+            ctx.cov["exhaustive"] += "; all input/detector shapes <= 4x4 x offsets -5..5 + 5 keywords x allow"
     tag = "s" if deep else "c"
     pairs = run_cases(ctx, fit_cases, tag)
-    mism, viol = eval_files(ctx, pairs, emit_fit_file, 400, tag + "fit", 2)
+    spairs = run_cases(ctx, step_cases, tag)
+    triples = [(c, o, None) for c, o in pairs] + expand_steps(spairs)
+    whole = {id(c): w for c, o, w in triples}
+    mism, viol = eval_files(ctx, [(c, o) for c, o, _ in triples], emit_fit_file, 400, tag + "fit", 2)
     seen = set()
-    for c, o in pairs:
+    for c, o, _ in triples:
         ctx.count("evaluations")
         ctx.dist("fit_path", c["path"])
         ctx.dist("fit_outcome", "placed" if "out" in o else "refused")
         ctx.dist("align", c["align"] if c["align"] is not None else "offset")
+        ctx.dist("size_relation(y/x)", size_relation(c))
+        ctx.dist("file_format", c.get("ext", "array"))
+        ctx.dist("dtype", c.get("dtype", "float64") + ("/quarters" if c.get("scale", 1) == 4 else ""))
+        ctx.dist("factor", eff_mult(c))
         exp = py_spec_fit(c)
         full = exp is not None and c["pos"] == [0, 0] and (c["ay"], c["ax"]) == (c["oy"], c["ox"])
         if not full:
-            seen.add(json.dumps([c[k] for k in ("path", "ay", "ax", "oy", "ox", "pos", "align", "allow")]))
+            seen.add(json.dumps([c[k] for k in ("path", "ay", "ax", "oy", "ox", "pos", "align", "allow")] + [c.get("step_index")]))
     for c, o in viol:
-        ctx.violations.append(fit_violation(c, o))
+        ctx.violations.append(fit_violation(c, o, whole.get(id(c))))
     for c, o in mism:
         ctx.broken.append(Broken("correspondence", "Model/Placement.v vs implementation",
                                  f"{c['path']} {c['ay']}x{c['ax']} -> {c['oy']}x{c['ox']} pos={c['pos']} align={c['align']}",
                                  dict(case=c, observed=o)))
     for c, o in pairs[:2]:
         ctx.sample(dict(case=c, observed=o))
-    n_traces = len(pairs)
+    n_traces = len(triples)
     n_dis = len(mism)
 
-    # ---- memoisation histories
-    memo_cases = gen_memo_cases(ctx)
+    # ---- histories of writes and loads in one process
+    memo_cases = corpus_cases("memo") + gen_memo_cases(ctx)
     mpairs = run_cases(ctx, memo_cases, tag)
     mm, mv = eval_files(ctx, mpairs, emit_memo_file, 40, tag + "memo", 2)
     for c, o in mpairs:
         ctx.count("evaluations", len(c["events"]))
         ctx.dist("memo_via", c.get("via"))
-        ctx.dist("memo_cause", memo_cause(c))
+        for ev in c["events"]:
+            if "r" in ev:
+                ctx.dist("raw_via", ev["via"])
+            if "w" in ev:
+                ctx.dist("history_file_format", ev["w"][ev["w"].rfind("."):])
         seen.add("memo" + json.dumps(c["events"]))
     mv.sort(key=lambda co: len(co[0]["events"]))
-    for c, o in mv[:1] + [x for x in mv[1:] if memo_cause(x[0]) == "other"]:
+    by_sig = {}
+    for c, o in mv:
+        v = memo_violation(c, o)
+        cls = "direct" if v.sig["entry"] in RAW_VIAS else "placing"      # report one per class of entry point
+        by_sig.setdefault(json.dumps([v.sig["cause"], v.sig["repeat"], cls]), (c, o))
+    for c, o in list(by_sig.values())[:3]:
+        if len(c["events"]) > 4:
+            c, o = shrink_memo(ctx, c, o)
         ctx.violations.append(memo_violation(c, o))
     ctx.cov["memo_histories_violating"] = ctx.cov.get("memo_histories_violating", 0) + len(mv)
     for c, o in mm:
@@ -446,21 +830,26 @@ def explore(ctx: Ctx, deep: bool):
     n_dis += len(mm)
 
     # ---- formats and delimiters
-    rt_cases = gen_roundtrip_cases(ctx)
+    rt_cases = corpus_cases("roundtrip") + gen_roundtrip_cases(ctx) + gen_cube_cases(ctx)
     rpairs = run_cases(ctx, rt_cases, tag)
     (rv,) = eval_files(ctx, rpairs, emit_rt_file, 300, tag + "rt", 1)
     for c, o in rpairs:
         ctx.count("evaluations")
+        if c["kind"] == "cube":
+            ctx.dist("format", f"npy3d/{c['loader']}")
+            seen.add("cube" + json.dumps([c["loader"], c["cube"]]))
+            continue
         ctx.dist("format", f"{c['fmt']}/{c['delim']}/{c['loader']}")
-        seen.add("rt" + json.dumps([c["fmt"], c["delim"], c["loader"], c["table"]]))
+        ctx.dist("stored_dtype", c.get("dtype", "float64") + ("/quarters" if c.get("scale", 1) == 4 else ""))
+        if c["fmt"] in ("txt", "data", "csv"):
+            ctx.dist("number_style", c.get("style", "int") + ("+header" if c.get("header") else ""))
+        if c["fmt"] == "fits":
+            ctx.dist("fits_hdus", c.get("hdus", "primary"))
+        seen.add("rt" + json.dumps([c["fmt"], c["delim"], c["loader"], c["table"], c.get("dtype"), c.get("style"), c.get("header")]))
+    rv.sort(key=lambda co: len(json.dumps(rt_table_of(co[0]))))          # smallest table first
     for c, o in rv:
-        ctx.violations.append(Violation(
-            clause="roundtrip", case=c, observed=o, expected=c["table"],
-            what=f"{c['fmt']} delimiter={c['delim']} loader={c['loader']}: table {len(c['table'])}x{len(c['table'][0])} "
-                 "is not read back with the same shape and values",
-            sig=dict(clause="roundtrip", fmt=c["fmt"], delim=c["delim"], loader=c["loader"],
-                     shape=f"{len(c['table'])}x{len(c['table'][0])}")))
-    tx_cases = gen_text_cases(ctx)
+        ctx.violations.append(rt_violation(c, o))
+    tx_cases = corpus_cases("text") + gen_text_cases(ctx)
     tpairs = run_cases(ctx, tx_cases, tag)
     (tm,) = eval_files(ctx, tpairs, emit_text_file, 300, tag + "txt", 1)
     for c, o in tpairs:
@@ -474,11 +863,54 @@ def explore(ctx: Ctx, deep: bool):
     n_dis += len(tm)
 
     ctx.cov["distinct_nontrivial"] = ctx.cov.get("distinct_nontrivial", 0) + len(seen)
-    ctx.cov["rule"] = ("placement: distinct (entry point, shapes, offset/keyword, allow) except the trivial full-cover "
-                       "case (same shape, offset 0); histories: distinct event lists (all contain >= 1 load); round "
-                       "trips: distinct (format, delimiter, loader, table); texts: distinct file contents")
+    ctx.cov["rule"] = ("placement: distinct (entry point, shapes, offset/keyword, allow, readout) except the trivial "
+                       "full-cover case (same shape, offset 0); histories: distinct event lists (all contain >= 1 load); "
+                       "round trips: distinct (format, delimiter, loader, table, dtype, number style); texts: distinct "
+                       "file contents")
     ctx.cov["traces_validated_against_impl"] = ctx.cov.get("traces_validated_against_impl", 0) + n_traces
     ctx.cov["disagreements_checked"] = ctx.cov.get("disagreements_checked", 0) + n_dis
+
+
+def rt_table_of(c):
+    if c["kind"] == "cube":
+        cube = c["cube"]
+        return [[len(cube), len(cube[0]), len(cube[0][0])]] + [row for plane in cube for row in plane]
+    return c["table"]
+
+
+def rt_obs_of(c, o):
+    if c["kind"] == "cube" and "out" in o:
+        return dict(out=[o.get("shape3", [])] + o["out"])
+    return o
+
+
+def rt_violation(c, o) -> Violation:
+    if c["kind"] == "cube":
+        return Violation(clause="roundtrip", case=c, observed=o, expected=c["cube"],
+                         what=f"3-D .npy through load_{c['loader']}: not read back with the same shape and values",
+                         sig=dict(clause="roundtrip", fmt="npy3d", loader=c["loader"]))
+    t = c["table"]
+    big = max(abs(v) for row in t for v in row) / c.get("scale", 1) >= 2 ** 52
+    return Violation(
+        clause="roundtrip", case=c, observed=o, expected=t,
+        what=f"{c['fmt']} delimiter={c['delim']} loader={c['loader']} stored as {c.get('dtype', 'float64')} "
+             f"{c.get('style', '')}{' with header row' if c.get('header') else ''}: table {len(t)}x{len(t[0])} "
+             "is not read back with the same shape and values",
+        sig=dict(clause="roundtrip", fmt=c["fmt"], delim=c["delim"], loader=c["loader"],
+                 shape=("1" if len(t) == 1 else "N") + "x" + ("1" if len(t[0]) == 1 else "M"), style=c.get("style"),
+                 magnitude=">=2^52" if big else "<2^52"))
+
+
+def corpus_cases(kind):
+    """Minimised past failures (harness/corpus/C20/*.json), run first."""
+    out = []
+    d = core.VERIF / "harness" / "corpus" / "C20"
+    if d.is_dir():
+        for f in sorted(d.glob("*.json")):
+            for c in json.loads(f.read_text()):
+                if c.get("kind") == kind:
+                    out.append(c)
+    return out
 
 
 def new_violations(ctx: Ctx):
@@ -506,16 +938,19 @@ def replay(ctx: Ctx, rp: dict) -> int:
     except core.TranslationError:
         text = tr.FALLBACK
     (gen / "Gen_C20.v").write_text(text)
-    core.ensure_lib(ctx, targets=core.lib_targets_of([text]))
+    core.ensure_lib(ctx, targets=core.lib_targets_of([HEAD]))
     core.coqc(ctx, gen / "Gen_C20.v", [(gen, "PyxelGen")])
     kind = case["kind"]
     if kind == "fit":
         ok, evals, se = core.coq_eval(ctx, "replay", emit_fit_file([(case, obs)]))
         bad = (not ok) or core.parse_int_list(evals[1]) != []
+    elif kind == "steps":
+        ok, evals, se = core.coq_eval(ctx, "replay", emit_fit_file([(c, o) for c, o, _ in expand_steps([(case, obs)])]))
+        bad = (not ok) or core.parse_int_list(evals[1]) != []
     elif kind == "memo":
         ok, evals, se = core.coq_eval(ctx, "replay", emit_memo_file([(case, obs)]))
         bad = (not ok) or core.parse_int_list(evals[1]) != []
-    elif kind == "roundtrip":
+    elif kind in ("roundtrip", "cube"):
         ok, evals, se = core.coq_eval(ctx, "replay", emit_rt_file([(case, obs)]))
         bad = (not ok) or core.parse_int_list(evals[0]) != []
     else:
@@ -532,19 +967,32 @@ META = dict(
         "contents, detector shapes, offsets and the five keywords, out[i][j] = in[i-py][j-px] where the input reaches and "
         "0 elsewhere, refuses exactly the non-overlapping inputs (and the smaller ones when disallowed); the keyword "
         "expressions and keyword strings are regenerated from the source on every run and proved equal to their "
-        "documented meaning; (2) the lru_cache history model: the full freshness statement is REFUTED with a proved "
-        "witness (key ignores file content), the restriction 'no file rewritten after it was loaded' is proved for all "
-        "histories and cache sizes; (3) first-success delimiter detection reads back every rectangular table written "
-        "with any tried separator, for the separator order regenerated from the source. The models are tied to the code "
-        "by evaluating them inside Coq against the real fit_into_array, load_cropped_and_aligned_image, the load_image / "
-        "load_charge models writing into photon / charge, and load_image on text files; NPY/FITS/text round trips through "
-        "load_image and load_table are judged against 'same shape and values' (that part is testing, not proof)."),
+        "documented meaning; (2) freshness IN FULL (after the repair of C20-F15): nothing in the loading code keeps "
+        "content between two calls (regenerated: no memoisation, no caching decorator, no mutated module-level "
+        "container, no mutable default, no function attribute), hence in EVERY history of file writes and loads — "
+        "through the placing loader and the direct loaders — every load returns the specified placement of what the file "
+        "holds at that moment; memoising on the arguments, with any key fields and any cache size, is proved to go "
+        "stale; the two loading models' call sites (regenerated) pass the detector's (rows, cols), position = (y, x), "
+        "align, and scale by time_step / time_scale (* multiplier); (3) delimiter detection for the regenerated "
+        "separator list: every rectangular table written with a tried separator is read back; the decision never "
+        "changes what is read (any accepted text is read as the numbers of its lines), the first accepting separator "
+        "decides and the order of the list is irrelevant; a separator accepts a line only if it occurs columns-1 times "
+        "and all other separator characters are blanks; a table written with a regular gap (e.g. ', ') is accepted iff "
+        "some separator reads the gap. The models are tied to the code by evaluating them inside Coq against the real "
+        "fit_into_array, load_cropped_and_aligned_image (npy / fits / text / 8-bit picture files; float, integer and "
+        "quarter values), the load_image / load_charge models called directly and through whole Exposure runs (one and "
+        "several readouts, time_step / time_scale / multiplier factors), histories of rewrites with controlled "
+        "modification times (same second, later, older) through every entry point incl. load_image / load_table / "
+        "load_psf, and load_image on text files; NPY/FITS (HDU layouts, stored dtypes)/text (integer, decimal, exponent "
+        "notation, header rows)/xlsx/PNG/BMP/TIFF/3-D NPY round trips through load_image, load_table and load_datacube "
+        "are judged against 'same shape and values' (that part is testing, not proof)."),
     level_note=(
         "Trusted: Coq kernel + vm_compute; translator/c20.py; the correspondence harness and text tokeniser. Modelled, "
-        "not verified: numpy slicing/intersect1d/loadtxt, functools.lru_cache, int(a/2) as truncation. Not modelled "
-        "(round-trip tested only): np.save/np.load, astropy FITS, pandas readers, csv.Sniffer. Assumes 2-D integer-valued "
-        "inputs, local files, one process and thread."),
-    technique="Coq proof (lia index arithmetic over list models, history induction) + regenerated tables + in-Coq "
-              "correspondence/spec evaluation",
+        "not verified: numpy slicing/intersect1d/loadtxt, int(a/2) as truncation, functools.lru_cache (only when the "
+        "decorator is present). Not modelled (round-trip tested only): np.save/np.load, astropy FITS, PIL, pandas "
+        "readers, csv.Sniffer (load_table's delimiter choice). Assumes 2-D inputs with integer or quarter values, local "
+        "files, one process and thread, and that a rewritten file gets a different modification time."),
+    technique="Coq proof (lia index arithmetic over list models, history induction, token-list induction) + regenerated "
+              "tables + in-Coq correspondence/spec evaluation",
     design_ref="DESIGN.md section 6, C20",
 )
